@@ -55,8 +55,16 @@ Definition parse_det (s : list N) : option (list (list N)) :=
   | [] => Some []
   end.
 Definition parse_opv (s : list N) : option pyver := match s with [] => None | _ :: _ => Some (parse_pv s) end.     (* "" = None *)
+(* py_version_nodot: "N" = None, "S<text>" = a str, "I<digits>" = an int (the code applies str() to it) *)
+Definition parse_nodot (s : list N) : option (list N) :=
+  match s with
+  | c :: t => if c =? 83 then Some t
+              else if c =? 73 then (if parse_N t =? 0 then None else Some (show_N (parse_N t)))      (* int 0 is falsy; str(int) otherwise *)
+              else None
+  | [] => None
+  end.
 Definition mk_defaults (plats : list (list N)) (name nodot_var sysver : list N) : defaults :=
-  {| d_plats := plats; d_sysver := parse_pv sysver; d_name := name; d_nodot := parse_optS nodot_var |}.
+  {| d_plats := plats; d_sysver := parse_pv sysver; d_name := name; d_nodot := parse_nodot nodot_var |}.
 Definition with_det (det : list N) (f : list (list N) -> list N) : list N :=
   match parse_det det with Some plats => f plats | None => asc "!EXC:ValueError" end.
 Definition obs_cpython_d (pv abis ps cfg sysver det : list N) : list N :=
@@ -71,7 +79,8 @@ Definition obs_generic_d (interp abis ps name nodot_var sysver det : list N) : l
 (* whole sys_tags() with the detected platform list of the steered system *)
 Definition obs_sys_p (name nodot_var sysver ext cfg det : list N) : list N :=
   with_det det (fun plats =>
-    match sys_tags (mk_sys name nodot_var sysver ext cfg) plats with
+    match sys_tags {| impl_name := name; py_version_nodot := parse_nodot nodot_var; sys_version := parse_pv sysver;
+                      ext_suffix := parse_optS ext; abi_cfg := parse_cfg cfg |} plats with
     | SOk l => show_tags l
     | SSystemError => asc "E"
     | SCrash => asc "!EXC:IndexError"
